@@ -1,13 +1,17 @@
 mod bdd_rec;
+mod sdd_rec;
 mod tables;
 mod util;
 
 fn main() {
     let argv: Vec<String> = std::env::args().collect();
     let args = util::Args(argv.clone());
-    util::quiet_panics();
+    if std::env::var("RV_LOUD").is_err() {
+        util::quiet_panics();
+    }
     match (argv.get(1).map(|s| s.as_str()), argv.get(2).map(|s| s.as_str())) {
         (Some("record"), Some("bdd")) => bdd_rec::record(&args),
+        (Some("record"), Some("sdd")) => sdd_rec::record(&args),
         (Some("record"), Some("table")) => tables::record_table(&args),
         (Some("replay"), Some("table")) => tables::replay_table(&args),
         (Some("record"), Some("lru")) => tables::record_lru(&args),
